@@ -16,9 +16,9 @@ def x_jobs():
             j[-1].tier = "t"
             import copy
             q = copy.copy(j[-1])
-            q.args = dict(q.args, t=2)
+            q.args = dict(q.args, t=3, cvol=1)
             q.core, q.tier = True, "q"
-            q.bounds = q.bounds.replace("3 valid", "2 valid")
+            q.bounds = q.bounds + " — volumes fixed to 1, 2, 3, .. (price * volume stays linear)"
             j.append(q)
     for m in ("sma", "wma", "swma", "hma", "linreg", "trima", "integral", "derivative", "momentum", "stdev", "linvol", "vwma", "adi"):
         j.append(X("c02_" + m, {"n": 254, "t": 257} if m not in ("hma", "trima", "stdev", "vwma", "adi") else {"n": 16, "t": 19}, "%s at its largest covered length: no panic event on any feasible path of a symbolic stream (and the output equals the definition)" % m, cost=30,
